@@ -79,8 +79,10 @@ pub fn use_gcd_prefix_optimize<T: NumberLike>(
   }
   for (i, pi) in prefixes.iter().enumerate().skip(1) {
     let pj = &prefixes[i - 1];
-    if pi.lower == pi.upper &&
-      pj.lower == pj.upper &&
+    // single-valuedness is decided on the unsigneds; float equality would
+    // not recognize a prefix holding only a NaN
+    if pi.lower.to_unsigned() == pi.upper.to_unsigned() &&
+      pj.lower.to_unsigned() == pj.upper.to_unsigned() &&
       pj.upper.to_unsigned() + T::Unsigned::ONE < pi.lower.to_unsigned() {
       return true;
     }
